@@ -1,0 +1,48 @@
+//go:build verif
+
+package packets
+
+import (
+	"net/netip"
+	"sync/atomic"
+
+	"golang.org/x/net/bpf"
+)
+
+// VerifSourceSinkFactoryFn lets a verification harness supply the Source/Sink pair.
+// Returning ok=false falls through to the platform implementation.
+type VerifSourceSinkFactoryFn func(addr netip.Addr, useDriver bool) (h SourceSinkHandle, ok bool, err error)
+
+var verifSourceSinkFactory atomic.Pointer[VerifSourceSinkFactoryFn]
+
+// VerifSetSourceSinkFactory installs (or, with nil, removes) the harness factory.
+func VerifSetSourceSinkFactory(fn VerifSourceSinkFactoryFn) {
+	if fn == nil {
+		verifSourceSinkFactory.Store(nil)
+		return
+	}
+	verifSourceSinkFactory.Store(&fn)
+}
+
+func verifSourceSinkOverride(addr netip.Addr, useDriver bool) (SourceSinkHandle, bool, error) {
+	fn := verifSourceSinkFactory.Load()
+	if fn == nil {
+		return SourceSinkHandle{}, false, nil
+	}
+	return (*fn)(addr, useDriver)
+}
+
+// VerifClassicBPFFilter returns the exact classic BPF program SetPacketFilter would install for spec.
+func VerifClassicBPFFilter(spec PacketFilterSpec) ([]bpf.RawInstruction, error) {
+	return getClassicBPFFilter(spec)
+}
+
+// VerifDropAllFilter returns the drop-all program used while draining.
+func VerifDropAllFilter() []bpf.RawInstruction {
+	return dropAllFilter
+}
+
+// VerifSetPacketIDBase sets the IP-ID block allocator's counter.
+func VerifSetPacketIDBase(v uint32) {
+	curPacketID.Store(v)
+}
